@@ -26,7 +26,9 @@ RULE = ("(configured path, directory population, policy) triples: paths over the
         "members (decorated before/after the extension, fields instantiated), look-alike neighbours (names a "
         "non-escaped metacharacter would match, other extension, missing dot, prefixes/suffixes, same name in a "
         "sub/parent directory), directories and symlinks named like logs, mtimes with ties; policy = count N, "
-        "duration (frozen clock, files exactly at the threshold) or callable, triggered by a rotation or by "
+        "duration in every documented spelling incl. fractional values, ms/us units and timedeltas with a "
+        "microsecond part (frozen clock; file ages on both sides of the exact limit from 1 ms to hours, inside the "
+        "sub-second part of the duration, and the limit itself) or callable, triggered by a rotation or by "
         "stop()/remove().  non-trivial = population has >= 1 family file and >= 1 non-family look-alike and the "
         "path contains a metacharacter, a field or several dots; distinct by (path, population, policy).  "
         "Stdlib/model streams: (pattern, name) pairs for fnmatch / glob.escape / splitext / glob.glob and "
@@ -39,7 +41,9 @@ TRUSTED = [
     "file-system semantics (listing, isfile, remove, mtime) are the real ones in the end-to-end stream, absent "
     "from the theorems; mtimes are exact integers in the model (floats in the code)",
 ]
-ASSUMPTIONS = ["POSIX, case-sensitive non-normalising file system", "{time} formats producing '/' are excluded",
+ASSUMPTIONS = ["generated duration spellings denote a whole number of microseconds (float rounding inside "
+               "parse_duration cannot move them); file ages differ from the limit by >= 1 ms unless exactly representable",
+               "POSIX, case-sensitive non-normalising file system", "{time} formats producing '/' are excluded",
                "nobody else creates files in the directory during retention",
                "at the duration threshold itself (mtime == now - d) the file is removed, as the code's <= says"]
 
@@ -446,6 +450,97 @@ def stream_patterns(ctx, drv, rng):
                               % (path, e, o), {"stream": "patterns", "path": path}, kind="correspondence")
 
 
+# ----------------------------------------------------------------------------- durations in every spelling
+# unit spellings of parse_duration with their exact length in microseconds (calendar units left out:
+# the code's month is 365/12 days, the property does not fix one)
+UNIT_SPELLINGS = [
+    (["us", "microsecond", "microseconds"], 1),
+    (["ms", "millisecond", "milliseconds"], 1000),
+    (["s", "sec", "secs", "second", "seconds"], 10**6),
+    (["min", "mins", "minute", "minutes"], 60 * 10**6),
+    (["h", "hour", "hours"], 3600 * 10**6),
+    (["d", "day", "days"], 86400 * 10**6),
+    (["w", "week", "weeks"], 7 * 86400 * 10**6),
+]
+
+
+def _num_text(rng, unit_us, small):
+    """(text, exact value in microseconds) of one `<number> <unit>` item; the product is a whole number of
+    microseconds by construction (so float rounding inside parse_duration cannot move it)"""
+    if unit_us == 1:
+        v = rng.choice([1, 250, 500, 999, 1500, 250000, 700000, rng.range(1, 999999)])
+        return str(v), v
+    if unit_us == 1000:
+        v = rng.choice([1, 5, 250, 500, 700, 900, 999, 1500, 2800, rng.range(1, 5000)])
+        if rng.chance(25):
+            f = rng.choice([5, 25, 125, 500])   # thousandths
+            return "%d.%03d" % (v, f), v * 1000 + f
+        return str(v), v * 1000
+    whole = rng.choice([0, 1, 2, 3, 5, rng.range(0, 40)]) if small or unit_us > 3600 * 10**6 else rng.range(1, 30)
+    if rng.chance(60):
+        digits = rng.choice([1, 2, 3])
+        frac = rng.range(1, 10**digits - 1)
+        text = "%d.%0*d" % (whole, digits, frac)
+        if whole == 0 and rng.chance(30):
+            text = text[1:]                      # ".5"
+        us = whole * unit_us + frac * unit_us // 10**digits
+        if (frac * unit_us) % 10**digits:
+            return str(whole), whole * unit_us
+        return text, us
+    return str(whole), whole * unit_us
+
+
+def gen_duration(rng, small=None):
+    """(spelling or None, exact microseconds).  None = pass a datetime.timedelta.  `small` durations are
+    between 1 ms and ~90 s, the others at least an hour (the sink's own freshly written files are ~1000 s
+    old under the frozen clock: clearly outside / inside)."""
+    if small is None:
+        small = rng.chance(60)
+    for _ in range(50):
+        if rng.chance(25):
+            if small:
+                us = rng.choice([900000, 2800000, 2900000, 2700000, 1, 999, 1000, 500000, 1000000, 2500000,
+                                 rng.range(1000, 90 * 10**6)])
+            else:
+                us = rng.choice([3600 * 10**6, 3600 * 10**6 + 500000, 86400 * 10**6 + 250000,
+                                 rng.range(3600 * 10**6, 8 * 86400 * 10**6)])
+            return None, us
+        units = UNIT_SPELLINGS[:3] if small else UNIT_SPELLINGS
+        k = rng.choice([1, 1, 2, 2, 3])
+        idx = sorted(set(rng.below(len(units)) for _ in range(k)), reverse=True)
+        if not small and not any(units[i][1] >= 3600 * 10**6 for i in idx):
+            idx = [rng.range(4, len(units) - 1)] + [i for i in idx if i < 4]
+        parts, total = [], 0
+        for i in idx:
+            names, uus = units[i]
+            text, us = _num_text(rng, uus, small)
+            name = rng.choice(names)
+            if rng.chance(8):
+                name = name.upper()
+            parts.append(text + rng.choice(["", " ", " ", "  "]) + name)
+            total += us
+        spelling = rng.choice([" ", " ", ", ", ",", "", "  "]).join(parts)
+        if rng.chance(10):
+            spelling = " " + spelling + " "
+        lo, hi = (1000, 90 * 10**6) if small else (3600 * 10**6, 30 * 86400 * 10**6)
+        if lo <= total <= hi:
+            return spelling, total
+    return ("2.9 s", 2900000) if small else ("1.5 h", 5400 * 10**6)
+
+
+def age_deltas(rng, dur_us):
+    """offsets (microseconds) of a modification time from the exact limit `now - d`: both sides, from one
+    millisecond to hours, inside the sub-second part of the duration, and the limit itself when every
+    quantity involved is exactly representable as a float (multiples of 1/8 s)"""
+    frac = dur_us % 10**6
+    cands = [1000, -1000, 250000, -250000, 750000, -750000, 1500000, -1500000, 3 * 10**9, -3 * 10**9, 20000, -20000]
+    if frac >= 2000:
+        cands += [frac // 2, frac // 2, frac - 1000, -(10**6 - frac) // 2 or -1000]
+    if dur_us % 125000 == 0:
+        cands += [0, 0]
+    return rng.choice(cands)
+
+
 # ----------------------------------------------------------------------------- end to end (stream iii)
 KINDS = ["file", "file", "file", "file", "file", "file", "file", "dir", "dirfull", "linkfile", "linkdir", "dangling"]
 DECOR = ["1", "2", "2020-01-01", "gz", "a.b", "", "log", "[", "*", "x y", "2019-12-31_23-59-59_000000", "!", "-"]
@@ -530,19 +625,23 @@ def gen_case(rng, idx):
         add(inst_dirs() + [fn], "neighbour")
     entries, seen = [], set()
     deltas_count = [0, 0, 10, 10, 20, 30, 50, 50, 70, 1000, -5]
-    deltas_age = [-3000, -3000, -1, 0, 0, 1, 1, 3000, 3000, 50000, -50000]
+    spelling, dur_us = gen_duration(rng) if policy_kind == "age" else (None, 0)
     for n, role in names:
         if n in seen:
             continue
         seen.add(n)
         kind = rng.choice(KINDS) if rng.chance(40) else "file"
-        entries.append({"name": n, "kind": kind,
-                        "delta": rng.choice(deltas_age if policy_kind == "age" else deltas_count)})
+        ent = {"name": n, "kind": kind, "delta": rng.choice(deltas_count)}
+        if policy_kind == "age":
+            ent["delta"] = 0
+            ent["delta_us"] = age_deltas(rng, dur_us)
+        entries.append(ent)
     nfiles = len(entries)
     case = {
         "stream": "e2e", "path": path, "entries": entries, "policy": policy_kind,
         "arg": (rng.range(0, max(2, nfiles + 1)) if policy_kind == "count" else
-                rng.choice([3600, 86400, 100000, 7 * 86400]) if policy_kind == "age" else 0),
+                (spelling if spelling is not None else "timedelta(microseconds=%d)" % dur_us) if policy_kind == "age" else 0),
+        "dur_us": dur_us, "age_spelling": spelling,
         "trigger": rng.choice(["stop", "rotate", "rotate"]),
         "api": "logger" if rng.chance(20) else "sink",
         "absolute": rng.chance(12),
@@ -600,6 +699,21 @@ class _FrozenClock:
         self.fs.datetime = self.orig
 
 
+def case_dur_us(case):
+    if case["policy"] != "age":
+        return 0
+    return case["dur_us"] if "dur_us" in case else int(case["arg"]) * 10**6
+
+
+def age_retention_arg(case):
+    """the `retention=` argument of an age case, as configured"""
+    if case.get("age_spelling") is not None:
+        return case["age_spelling"]
+    if "dur_us" in case:
+        return pydt.timedelta(microseconds=case["dur_us"])
+    return pydt.timedelta(seconds=case["arg"]) if case.get("age_form") == "timedelta" else "%d seconds" % case["arg"]
+
+
 def run_case(case, case_root, keep=False):
     """execute one case on the real code inside directory `case_root` (relative to cwd, already
     created).  Returns (problems, steps) – problems: list of oracle findings; steps: data for the model."""
@@ -608,7 +722,8 @@ def run_case(case, case_root, keep=False):
     prefix = os.path.abspath(case_root) if case["absolute"] else case_root
     path = prefix + "/" + case["path"]
     info = family_info(path)
-    t_frozen = int(time.time()) + 5
+    t_frozen = int(time.time()) + 1000
+    dur_us = case_dur_us(case)
     received = []          # callable policy: [(list, snapshot names)]
     state = {"root": prefix}
 
@@ -618,7 +733,7 @@ def run_case(case, case_root, keep=False):
     if case["policy"] == "count":
         retention = case["arg"]
     elif case["policy"] == "age":
-        retention = pydt.timedelta(seconds=case["arg"]) if case["age_form"] == "timedelta" else "%d seconds" % case["arg"]
+        retention = age_retention_arg(case)
     else:
         retention = cb
     rotation = (lambda message, file: str(message) == "m2\n") if case["trigger"] == "rotate" else None
@@ -641,7 +756,6 @@ def run_case(case, case_root, keep=False):
         try:
             # populate
             base_count = (t_frozen - 10**6)
-            base_age = t_frozen - case["arg"]
             for ent in case["entries"]:
                 p = prefix + "/" + ent["name"]
                 if os.path.lexists(p):
@@ -665,14 +779,17 @@ def run_case(case, case_root, keep=False):
                         os.symlink(os.path.abspath(targets + "/dirT"), p)
                     else:
                         os.symlink(os.path.abspath(targets + "/nothing"), p)
-                    mt = (base_age if case["policy"] == "age" else base_count) + ent["delta"]
+                    if case["policy"] == "age":
+                        mt_ns = (t_frozen * 10**6 - dur_us + ent.get("delta_us", ent["delta"] * 10**6)) * 1000
+                    else:
+                        mt_ns = (base_count + ent["delta"]) * 10**9
                     if k in ("file", "dir", "dirfull"):
-                        os.utime(p, ns=(mt * 10**9, mt * 10**9))
+                        os.utime(p, ns=(mt_ns, mt_ns))
                 except (OSError, NotADirectoryError):
                     ent["skipped"] = True
             # the shared symlink target gets a fixed, old mtime
-            mt = (base_age - 7 if case["policy"] == "age" else base_count + 40)
-            os.utime(targets + "/fileT", ns=(mt * 10**9, mt * 10**9))
+            mt_ns = ((t_frozen * 10**6 - dur_us - 7 * 10**6) * 1000 if case["policy"] == "age" else (base_count + 40) * 10**9)
+            os.utime(targets + "/fileT", ns=(mt_ns, mt_ns))
 
             def do(op):
                 if op in ("m1\n", "m2\n"):
@@ -748,7 +865,11 @@ def judge(case, info, op, before, after, expect_ret, exc, calls, t_frozen, steps
     survivors = [n for n in managed if n in after and n != new or (n in after and n not in D and n != new)]
     survivors = [n for n in managed if n not in D]
     step = {"op": op, "pool": [(n, pool[n]["isfile"], pool[n]["mtime"]) for n in sorted(pool)], "deleted": D,
-            "policy": case["policy"], "arg": case["arg"], "now": t_frozen, "calls": [c[0] for c in calls]}
+            "policy": case["policy"], "arg": case["arg"], "now": t_frozen, "calls": [c[0] for c in calls],
+            "dur_us": case_dur_us(case),
+            "age_cfg": (("s", case["age_spelling"]) if case.get("age_spelling") is not None else
+                        ("t", case_dur_us(case)) if "dur_us" in case or case.get("age_form") == "timedelta" else
+                        ("s", "%d seconds" % case["arg"])) if case["policy"] == "age" else None}
     steps.append(step)
     if case["policy"] == "count":
         order = sorted(managed, key=lambda n: (-pool[n]["mtime"], n))
@@ -757,11 +878,14 @@ def judge(case, info, op, before, after, expect_ret, exc, calls, t_frozen, steps
             probs.append(("oracle", "retention=%d: survivors %r, the %d most recent family files are %r"
                           % (case["arg"], sorted(survivors), case["arg"], want)))
     elif case["policy"] == "age":
-        limit = (t_frozen - case["arg"]) * 10**9
+        dur_us = case_dur_us(case)
+        limit = (t_frozen * 10**6 - dur_us) * 1000
         want = sorted(n for n in managed if pool[n]["mtime"] > limit)
         if sorted(survivors) != want:
-            probs.append(("oracle", "retention=%ds: survivors %r, family files modified within the duration are %r"
-                          % (case["arg"], sorted(survivors), want)))
+            ages = {n: (t_frozen * 10**9 - pool[n]["mtime"]) / 1e9 for n in set(want) ^ set(survivors)}
+            probs.append(("oracle", "retention=%r (= %.6f s): survivors %r, family files modified within the duration "
+                          "are %r; ages (s) of the files judged differently: %r"
+                          % (case["arg"], dur_us / 1e6, sorted(survivors), want, ages)))
     else:
         if len(calls) != 1:
             probs.append(("oracle", "retention callable invoked %d times at %r" % (len(calls), op)))
@@ -791,7 +915,10 @@ def model_lines(case, path, steps):
         if st["policy"] == "count":
             lines.append(("ret %s c %d 0 %s" % (enc(path), st["arg"], ents)).rstrip())
         elif st["policy"] == "age":
-            lines.append(("ret %s a %d %d %s" % (enc(path), st["arg"] * 10**9, st["now"] * 10**9, ents)).rstrip())
+            kind, arg = st["age_cfg"]
+            ents_us = " ".join("%s %d %d" % (enc(n), 1 if f else 0, m // 1000) for n, f, m in st["pool"])
+            lines.append(("retcfg %s %s %s %d %s" % (enc(path), kind, enc(arg) if kind == "s" else "%d" % arg,
+                                                     st["now"] * 10**6, ents_us)).rstrip())
         else:
             lines.append(("sel %s %s" % (enc(path), ents)).rstrip())
     return lines
@@ -885,35 +1012,93 @@ DURATIONS = [("1 week", 604800, 604800), ("3 days", 259200, 259200), ("2 h", 720
              ("1 month", 28 * DAY, 31 * DAY), ("2 months", 59 * DAY, 62 * DAY), ("1 year", 365 * DAY, 366 * DAY)]
 
 
-def stream_dispatch(ctx):
-    """`_make_retention_function`: int -> count, timedelta / every documented duration spelling -> age with
-    the denoted number of seconds, callable -> itself, anything else rejected at add()"""
+def impl_policy(arg):
+    """what `_make_retention_function(arg)` denotes, canonicalised: 'count N' | 'age <microseconds>' |
+    'callable' | 'none' | 'err Kind'"""
     from loguru._file_sink import FileSink, Retention
-    for text, lo, hi in DURATIONS:
-        ctx.case(("duration", text))
-        try:
-            f = FileSink._make_retention_function(text)
-            ok = getattr(f, "func", None) is Retention.retention_age and lo - 1e-6 <= f.keywords["seconds"] <= hi + 1e-6
-        except Exception as e:  # noqa
-            ok = False
-        if not ok:
-            ctx.violation("retention=%r is not an age policy of %d..%d seconds" % (text, lo, hi),
-                          {"stream": "dispatch", "retention": text, "seconds": [lo, hi]}, kind="oracle")
-    for n in (0, 1, 5):
-        f = FileSink._make_retention_function(n)
-        ctx.case(("count", n))
-        if getattr(f, "func", None) is not Retention.retention_count or f.keywords != {"number": n}:
-            ctx.violation("retention=%d is not a count policy of %d" % (n, n), {"stream": "dispatch", "retention": n}, kind="oracle")
-    for bad, exc in (("nope", ValueError), ("", ValueError), (object(), TypeError), (1.5, TypeError)):
-        ctx.case(("reject", repr(type(bad))))
-        try:
-            FileSink._make_retention_function(bad)
-            raised = None
-        except Exception as e:  # noqa
-            raised = type(e)
-        if raised is not exc:
-            ctx.violation("retention=%r: expected %s at add(), got %r" % (bad, exc.__name__, raised),
-                          {"stream": "dispatch", "retention": repr(bad)}, kind="oracle")
+    try:
+        f = FileSink._make_retention_function(arg)
+    except Exception as e:  # noqa
+        return "err " + core.err_kind(e)
+    if f is None:
+        return "none"
+    fn, kw = getattr(f, "func", None), getattr(f, "keywords", None)
+    if fn is Retention.retention_count and set(kw) == {"number"}:
+        return "count %d" % kw["number"]
+    if fn is Retention.retention_age and set(kw) == {"seconds"}:
+        us = kw["seconds"] * 1e6
+        return "age %d" % round(us) if abs(us - round(us)) < 1e-3 * max(1.0, abs(us) * 1e-9) else "age %r" % (kw["seconds"],)
+    return "callable" if callable(f) else "other"
+
+
+def dispatch_arg(r):
+    """replay dict -> the retention argument"""
+    if r.get("timedelta_us") is not None:
+        return pydt.timedelta(microseconds=r["timedelta_us"])
+    return r["retention"]
+
+
+def stream_dispatch(ctx, drv, rng, only=None):
+    """`_make_retention_function` over the documented argument forms: int -> that count; timedelta and
+    every generated duration spelling (several units, fractional values, ms/us) -> the age policy of
+    EXACTLY the denoted duration; callable -> itself; anything else rejected at add().  Direct oracle:
+    the exact number of microseconds known by construction; correspondence: the Lean `makeRetention`."""
+    items = []   # (replay dict, expected canonical policy or None, driver line)
+    if only is not None:
+        items.append(only)
+    else:
+        for text, lo, hi in DURATIONS:
+            items.append({"stream": "dispatch", "retention": text, "range_s": [lo, hi]})
+        for _ in range(ctx.n(400, 20000)):
+            spelling, us = gen_duration(rng)
+            if spelling is None:
+                items.append({"stream": "dispatch", "retention": "timedelta", "timedelta_us": us, "expect_us": us})
+            else:
+                items.append({"stream": "dispatch", "retention": spelling, "expect_us": us})
+        for n in (0, 1, 5, 17, rng.range(0, 1000)):
+            items.append({"stream": "dispatch", "retention": n, "expect": "count %d" % n})
+        for bad, exp in (("nope", "err ValueError"), ("", "err ValueError"), ("3 dayz", "err ValueError"),
+                         ("1.2.3 s", "err ValueError"), (1.5, "err TypeError")):
+            items.append({"stream": "dispatch", "retention": bad, "expect": exp})
+    lines, keep = [], []
+    for r in items:
+        arg = dispatch_arg(r)
+        got = impl_policy(arg)
+        ctx.case(("dispatch", repr(arg)), nontrivial="expect_us" in r and r["expect_us"] % 10**6 != 0)
+        if "expect_us" in r:
+            ctx.stat("dispatch_durations")
+            if r["expect_us"] % 10**6:
+                ctx.stat("dispatch_durations_with_subsecond_part")
+            want = "age %d" % r["expect_us"]
+        elif "range_s" in r:
+            want = None
+            lo, hi = r["range_s"]
+            ok = got.startswith("age ") and got[4:].lstrip("-").isdigit() and lo * 10**6 <= int(got[4:]) <= hi * 10**6
+            if not ok:
+                ctx.violation("retention=%r is not an age policy of %d..%d seconds: %s" % (arg, lo, hi, got), r, kind="oracle")
+        else:
+            want = r["expect"]
+        if want is not None and got != want:
+            ctx.violation("retention=%r denotes %s, but the configured policy is %s" % (arg, want, got), r, kind="oracle")
+        if isinstance(arg, str):
+            lines.append("mk s %s" % enc(arg))
+        elif isinstance(arg, pydt.timedelta):
+            lines.append("mk t %d" % r["timedelta_us"])
+        elif isinstance(arg, int) and not isinstance(arg, bool):
+            lines.append("mk i %d" % arg)
+        else:
+            lines.append("mk o 0")
+        keep.append((r, got))
+    out = drv.run(lines)
+    if out is None:
+        return
+    bad = 0
+    for (r, got), o in zip(keep, out):
+        if o != got:
+            bad += 1
+            if bad <= 3:
+                ctx.broke("correspondence Retention.makeRetention", "retention=%r: impl %s, model %s" % (dispatch_arg(r), got, o))
+    ctx.stat("dispatch_model_disagreements", bad)
 
 
 def probe_alias(ctx):
@@ -966,7 +1151,7 @@ def run(ctx):
         stream_e2e(ctx, drv, rng.fork("corpus"), cases=corpus)
         ctx.stat("corpus_cases", len(corpus))
     stream_e2e(ctx, drv, rng.fork("e2e"))
-    stream_dispatch(ctx)
+    stream_dispatch(ctx, drv, rng.fork("dispatch"))
     probe_alias(ctx)
     stream_patterns(ctx, drv, rng.fork("patterns"))
     stream_stdlib(ctx, drv, rng.fork("stdlib"))
@@ -999,7 +1184,7 @@ def replay(ctx, rep):
         if got != out or (want is not None and got.startswith("ok") and [dec(x) for x in got.split()[1:]] != want):
             ctx.violations.append({"what": "patterns differ"})
     elif r.get("stream") == "dispatch":
-        stream_dispatch(ctx)
+        stream_dispatch(ctx, drv, ctx.rng, only=r)
     for v in ctx.violations:
         print("violation:", v["what"])
     bad = bool(ctx.violations)
